@@ -238,3 +238,38 @@ Example ex_alignment :
   alignment_of 8 (Some (s2z "ACGTACGT")) 78 [2; 5] (s2z "TG") = s2z "ACTTAGGT" /\
   alignment_of 8 None 63 [2; 5] (s2z "TG") = s2z "??T??G??".
 Proof. vm_compute. split; reflexivity. Qed.
+
+(* ---------- F. nexus tree names chain through the breakpoints ---------- *)
+(* tree k is named by breakpoint tokens k and k+1: one name per interval, the first starts at the
+   first breakpoint, each tree starts textually where the previous one ended, the last ends at the
+   last breakpoint *)
+Theorem intervals_chain : forall (toks : list str) (d : str),
+  length (intervals_of toks) = pred (length toks) /\
+  (forall k, (S k < length toks)%nat ->
+     nth k (intervals_of toks) (d, d) = (nth k toks d, nth (S k) toks d)).
+Proof.
+  induction toks as [|a toks IH]; intros d; [split; [reflexivity | intros k H; simpl in H; lia]|].
+  destruct toks as [|b r]; [split; [reflexivity | intros k H; simpl in H; lia]|].
+  destruct (IH d) as [IH1 IH2]. split.
+  - change (intervals_of (a :: b :: r)) with ((a, b) :: intervals_of (b :: r)).
+    cbn [length]. rewrite IH1. reflexivity.
+  - intros k H. change (intervals_of (a :: b :: r)) with ((a, b) :: intervals_of (b :: r)).
+    destruct k as [|k]; [reflexivity|]. cbn [nth]. rewrite IH2 by (simpl in *; lia). reflexivity.
+Qed.
+
+(* ---------- G. the default precision ---------- *)
+Theorem default_precision_rule : forall q nodes muts migs,
+  (resolve_precision None q nodes muts migs = 0 <->
+   forall x, In x (nodes ++ muts ++ migs) -> x mod 10 ^ q = 0) /\
+  (resolve_precision None q nodes muts migs = 0 \/ resolve_precision None q nodes muts migs = 17) /\
+  (forall p, resolve_precision (Some p) q nodes muts migs = p).
+Proof.
+  intros. unfold resolve_precision, discrete_time. split; [|split; [|reflexivity]].
+  - rewrite <- !forallb_app, <- app_assoc. destruct (forallb (is_integral q) (nodes ++ muts ++ migs)) eqn:E.
+    + split; auto. intros _ x Hx. rewrite forallb_forall in E. apply Z.eqb_eq. apply (E x Hx).
+    + split; [discriminate|]. intro H. exfalso.
+      assert (forallb (is_integral q) (nodes ++ muts ++ migs) = true).
+      { apply forallb_forall. intros x Hx. apply Z.eqb_eq. auto. }
+      congruence.
+  - destruct (_ && _); auto.
+Qed.
